@@ -13,6 +13,8 @@ CONSTANTS
   FinOnlyClosed = TRUE
   ReleaseSaved = TRUE
   CleanSkipFixed = TRUE
+  PagesFix = FALSE
+  Script <- MC_NoScript
   ExportMod = 64
   ExportRem = 1
 INVARIANTS ImplSatisfiesProp HeapSane ContentMatchesSeq UsedExact NoFlags Export
